@@ -5,19 +5,38 @@ CFG = {'lean_modules': ['ObiVerif.Props.C07'],
  'thorough_seeds': 8,
  'rule': 'cases = all 256 bytes through nucComplement; every string of length <=2 (quick) / <=3 (thorough) over the 19-symbol alphabet; every (from,to) window '
          'incl. out-of-range, linear and circular, of four sequences; random sequences to 500 bases with qualities; position-bearing annotations under rc / '
-         'subsequence; random histories of new/copy/rc/rc-in-place/sub/set/recycle on up to 6 objects; non-trivial = distinct well-formed case whose input '
+         'subsequence; random histories of new/copy/rc/rc-in-place/sub/set/recycle on up to 6 objects; heap histories (new/copy/rc/rci/sub/set/recycle/mapset/'
+         'setqual/setfeat/scratch, lengths 0,1,299..301,1024,1025, from=to, to=len, full circular windows, 4-28 steps quick, 100-160 steps for 1 in 10 in thorough) '
+         'compared with the heap model run under three pool policies + value semantics; mutator histories (every mutator of BioSequence: Write/WriteByte/'
+         'WriteString/Clear/Join(inplace)/SetQualities/WriteQualities/SetAttribute(pairing_mismatches)/SetId/Sequence()[i]=) where after EVERY step the reverse '
+         'complement of every live object is asked again and compared with the naive one of its current bases, qualities and pairing_mismatches; non-trivial = distinct well-formed case whose input '
          'byte survives lower-casing',
  'technique': 'Lean 4 theorems (table lemmas by decide over tables regenerated from the source; algebraic laws by induction) + differential correspondence of '
               'the model with the real obiseq methods, including object histories + naive-implementation oracle',
  'level_text': 'Complement involution and agreement of the three complement tables are decided over tables regenerated from /repo on every run; rc∘rc = id, '
                'the in-place two-index loop = reverse∘map complement, rc of a subsequence = mirrored subsequence of rc, circular subsequence = window of s++s, '
                'the coordinate transforms of position-bearing annotations and the frame property of object histories (an operation changes only its target) '
-               'are proved for all sequences, lengths and windows on the Lean model (see evidence for the list actually proved). The model is tied to '
-               'ReverseComplement / Subsequence / Copy / Recycle by running both on the same lines, object histories included.',
- 'level_note': 'Trusted: Lean kernel; transcription Model/SeqOps.lean; extractor (literals only). The sync.Pool of byte slices is not modelled as a heap: '
-               "absence of aliasing in the real code is observed through object histories (every operation's effect on every other live object is compared) — "
-               'partial for real concurrent reuse.',
- 'trusted_base': LEAN_TB + ['extract/ (go/ast literal extraction of _revcmpDNA, revcompnuc, LX_BIO_CDNA_ALPHA)', 'naive reverse complement / window oracles in the harness'],
+               'are proved for all sequences, lengths and windows on the Lean model (see evidence for the list actually proved). NEW: a HEAP model of the byte-slice '
+               'pool (Model/SeqHeap.lean: backing arrays, slice variables, sync.Pool of ADDRESSES of slice variables, capacity rules 0 / <=1024 / New=300, poison on '
+               'recycle, append growth) with the theorems, for EVERY decision of sync.Pool and of append: heap_run_inv (every reachable state satisfies the '
+               'invariant), no_shared_buffer (two live slice fields never show the same array, and no pooled slice shows the array of a live object), heap_frame '
+               '(an operation leaves every object other than its target unchanged: bases, qualities, features, annotations), heap_no_alias (whole histories). '
+               'The model is tied to ReverseComplement / Subsequence / Copy / Recycle / SetQualities / SetFeatures / GetSlice / RecycleSlice by running both on '
+               'the same lines, object histories included, with recycled buffers poisoned, backing arrays of all live slices compared pairwise after every step '
+               '(hook VerifRawSlices) and the rc law re-evaluated on the real code on the current content of every live object after every step.',
+ 'level_note': 'Trusted: Lean kernel; transcriptions Model/SeqOps.lean and Model/SeqHeap.lean; extractor (literals only). Heap model: the frame/invariant '
+               'part is proved for all histories and all pool decisions; the EFFECT of each operation on its target (heap step = value semantics vstep) is NOT '
+               'proved, it is executed: the driver runs the heap under three pool policies and the value semantics and prints MODEL-DIVERGES when they differ. '
+               'Well-behaved histories only (a name is bound once; a recycled object is never used again: such lines are bad-op on both sides). The heap model '
+               'assumes qualities as long as the sequence (enforced on new/setqual). The model describes SetQualities/SetFeatures AS REPAIRED '
+               '(notes/patches/C07-pool-keeps-address-of-live-field.diff); Heap.setFeaturesOld keeps the old code for reference, no counterexample theorem is '
+               'proved about it (the failing history is in the harness corpus). Concurrency itself (several goroutines) is not modelled: the oracle `ch` '
+               'covers any item or none being returned by Get, which is what another goroutine can cause, but not a data race on one sequence. Mutator '
+               'histories (`mut`) are oracle-only (the model answers ok). Join does not extend qualities (ReverseComplement then panics): outside the '
+               'property statement, Join is only exercised on receivers without qualities. _revcmpMutation key rewriting, features under rc/sub '
+               '(not transformed by the code) and deep copy of non-map annotation kinds are tied by correspondence / not covered.',
+ 'trusted_base': LEAN_TB + ['extract/ (go/ast literal extraction of _revcmpDNA, revcompnuc, LX_BIO_CDNA_ALPHA)', 'naive reverse complement / window oracles in the harness', 'pkg/obiseq/verif_hooks.go (VerifRawSlices)'],
  'modelled': 'pkg/obiseq revcomp.go (nucComplement, ReverseComplement loop, _revcmpMutation), subseq.go (Subsequence, _subseqMutation), value semantics of '
              'Copy/Recycle',
- 'assumptions': ['circular windows are given with to <= len (the code reduces larger values modulo len)']}
+ 'assumptions': ['circular windows are given with to <= len (the code reduces larger values modulo len)',
+                 'heap model: qualities have the length of the sequence; no use after Recycle; one goroutine per sequence']}
